@@ -301,6 +301,13 @@ fn open_index(config: &crate::config::Config) -> Result<(bool, Index)> {
         }
     }
 
+    // The metadata must stop vouching for the index before it is destroyed,
+    // otherwise an interrupted rebuild leaves an empty index behind which is
+    // recorded as current.
+    if config.meta_path.is_file() {
+        fs::remove_file(&config.meta_path)?;
+    }
+
     if config.index_path.is_dir() {
         log::info!("removing index: {}", config.index_path.display());
         fs::remove_dir_all(&config.index_path)?;
